@@ -512,6 +512,9 @@ def r8_persist_every_bucket(ctx, cfg):
 
 
 def run(ctx, cfg=CFG):
+    # E-stale (rules/stale.py): no snapshot of a self field is written back after a self-method call that may have changed it
+    from . import stale
+    stale.rule_stale(ctx, "C05.R10", "cascette_client_storage", r"src/(index|kmt)/")
     # E-dirty (rules/dirtyflag.py): every dirty flag found in the crate whose saver lives in this property's modules
     from . import dirtyflag
     dirtyflag.rule_dirty(ctx, "C05.R9", ["cascette_client_storage"], file_pat=r"src/(kmt|index)/", floor=6)
@@ -527,4 +530,4 @@ def run(ctx, cfg=CFG):
 
 
 from .selftest import for_families as _ff  # noqa: E402
-selftest = _ff(['gate', 'loop', 'dirty'])
+selftest = _ff(['gate', 'loop', 'dirty', 'stale'])
